@@ -1030,7 +1030,20 @@ fn c19(c: &mut Ctx) {
             c.str_case("parse coord", "parse coord ", &s2, "");
         }
     }
+    // the gate that bounds the number of men (and so the number of moves): raw boards around its limits; whatever the
+    // library accepts is also put through the generators
+    let nf4 = c.vol(3000, 20.0);
     let mut ps = posgen::f3h(&mut c.rng, c.thorough);
+    for _ in 0..nf4 {
+        let (r, t) = posgen::f4(&mut c.rng);
+        c.st.family_only(t);
+        c.case("validate", &format!("validate {}", raw_fmt(&r)));
+        if let Some(p) = posgen::pos_of(r, "F4-accepted") {
+            if c.rng.chance(1, 4) {
+                ps.push(p);
+            }
+        }
+    }
     let n = c.vol(2000, 50.0);
     for _ in 0..n {
         ps.push(posgen::f1_dense(&mut c.rng));
